@@ -7,6 +7,7 @@ lookup, and the translated parameter formulas evaluated on the translated tables
 import OptRs.Driver.Perceive
 import OptRs.Model.BuildUFF
 import OptRs.Model.Wrapper
+import OptRs.Model.Cli
 import OptRs.Driver.FF
 import OptRs.Model.Energy
 import OptRs.Gen.AtomTypes
@@ -299,6 +300,46 @@ def wrapperLine (line : String) : String :=
         | _ => (s, outs ++ ["bad-op"])) (s0, [showWState s0])
       " ;; ".intercalate outs
     | _ => "bad-op"
+  | _ => "bad-op"
+
+end OptRs.Driver
+
+namespace OptRs.Driver
+open OptRs OptRs.Model
+
+/-- `b3d n bonds`: the structural model of `build_3d` (coordinates are opaque: the identity stands for whatever the
+optimiser does) on a record derived from the given bonds. -/
+def b3dLine (line : String) : String :=
+  match words line with
+  | ["b3d", n, bonds] =>
+    let n := n.toNat!
+    let bs := insertAllByKey Bond.key [] (parseBonds bonds)
+    let s : WState Nat := { zs := List.replicate n 6, coords := [], conn := Conn.ofBonds n bs }
+    canonConn (build3d id (fun _ _ xs => xs) s).conn
+  | _ => "bad-op"
+
+end OptRs.Driver
+
+namespace OptRs.Driver
+open OptRs.Model.Cli
+
+/-- `cli <ok|bad|missing> args…`: the decision of the command-line model. The molecule is opaque (`Unit`): what is
+compared is refuse / wrote-with-which-force-field. -/
+def cliLine (line : String) : String :=
+  match words line with
+  | "cli" :: status :: args =>
+    let args := args.map fun a => if a = "<empty>" then [] else a.toList
+    let readMol : Str → Option Unit := fun _ => if status = "ok" then some () else none
+    -- remember which force field was selected by threading it through the "molecule"
+    match parseArgs args with
+    | none => "refuse"
+    | some (file, ffName) =>
+      match run readMol (fun _ m => m) args with
+      | .refuse => "refuse"
+      | .wrote _ => match chooseFF ffName with
+        | some .uff => s!"wrote uff {String.ofList file}"
+        | some .rb => s!"wrote rb {String.ofList file}"
+        | none => "refuse"
   | _ => "bad-op"
 
 end OptRs.Driver
